@@ -31,6 +31,10 @@ func c01(r *ev.Run, replay string) {
 		r.Inconclusive("witnesses/C01.json: " + err.Error())
 	}
 	for _, w := range wit {
+		if w.Sys == "Maven-dot-qualifier" {
+			c01Pool(r, gen.SysGen{Name: w.Sys, Sys: semver.Maven, Gen: gen.MavenDotQualifier}, w.Pool, r.Rand("witness"))
+			r.Count("witness_pools", 1)
+		}
 		for _, sg := range gen.OrderSystems() {
 			if sg.Name == w.Sys {
 				c01Pool(r, sg, w.Pool, r.Rand("witness"))
@@ -59,6 +63,24 @@ func c01(r *ev.Run, replay string) {
 			c01Pool(r, sg, pool, rng)
 			r.Count("isolated_pools", 1)
 		}
+	}
+	// Maven versions whose qualifier is attached with a dot (4.1.0.Final): a
+	// Maven-Central shape of the property's domain where the library's flat
+	// element model departs from Maven's nested lists (open finding). The pools
+	// are kept apart, under a system name of their own, so that the finding
+	// is identified by the shape and nothing else is attributed to it.
+	for sh := 0; sh < r.N(2, 12); sh++ {
+		sg := gen.SysGen{Name: "Maven-dot-qualifier", Sys: semver.Maven, Gen: gen.MavenDotQualifier}
+		rng := r.Rand(fmt.Sprintf("maven-dot/%d", sh))
+		pool := gen.Pool(rng, sg.Gen, 200, func(s string) bool {
+			if !gen.MavenInDotDomain(s) {
+				return false
+			}
+			_, err := sg.Sys.Parse(s)
+			return err == nil
+		})
+		c01Pool(r, sg, pool, rng)
+		r.Count("maven_dot_qualifier_pools", 1)
 	}
 	n := r.N(300, 600)
 	shards := r.N(6, 48)
